@@ -20,20 +20,20 @@ HAQ = "QueryHandler.handle_assembled_query"
 LEAVES = [
     # ---- _core.py: async_send_with_transport (one socket, one packet)
     ("ReplyNet", "send_addr_none", CORE, SWT, ("if_exact", "addr is None"), [P("addr is None", "addr_none", "bool")], "bool", {}),
-    ("ReplyNet", "send_group_v6", CORE, SWT, ("if_exact", "ipv6_socket"), [P("ipv6_socket", "ipv6_socket", "bool")], "bool", {}),
+    ("ReplyNet", "send_group_v6", CORE, SWT, ("ifexp_test", "real_addr", 0), [P("ipv6_socket", "ipv6_socket", "bool")], "bool", {}),
     ("ReplyNet", "src_group_addr", CORE, SWT, ("assign", "real_addr", 0), [], "src", {}),
     ("ReplyNet", "src_given_addr", CORE, SWT, ("assign", "real_addr", 1), [], "src", {}),
     ("ReplyNet", "src_ipv6_socket", CORE, SWT, ("assign", "ipv6_socket", 0), [], "src", {}),
     ("ReplyNet", "send_skip", CORE, SWT, ("if_exact", "not can_send_to(ipv6_socket, real_addr)"),
      [P("can_send_to(ipv6_socket, real_addr)", "can_send", "bool")], "bool", {}),
-    ("ReplyNet", "send_fill_flow_scope", CORE, SWT, ("if", "v6_flow_scope", 0),
+    ("ReplyNet", "send_fill_flow_scope", CORE, SWT, ("if_assigning", "v6_flow_scope", 0),
      [P("ipv6_socket", "ipv6_socket", "bool"), P("v6_flow_scope", "flow_scope_given", "bool")], "bool", {}),
     ("ReplyNet", "src_sock_name", CORE, SWT, ("assign", "(_, _, sock_flowinfo, sock_scopeid)", 0), [], "src", {}),
     ("ReplyNet", "src_sock_flow_scope", CORE, SWT, ("assign", "v6_flow_scope", 0), [], "src", {}),
     ("ReplyNet", "send_port", CORE, SWT, ("arg_elt", "transport.sendto", 1, 0, 1), [P("port", "port")], "num", {"nat": True}),
     ("ReplyNet", "src_sendto", CORE, SWT, ("call", "transport.sendto", 0), [], "src", {}),
     # ---- _core.py: Zeroconf.async_send (every packet to every chosen socket)
-    ("ReplyNet", "send_one_transport", CORE, "Zeroconf.async_send", ("if_exact", "transport"), [P("transport", "transport_given", "bool")], "bool", {}),
+    ("ReplyNet", "send_one_transport", CORE, "Zeroconf.async_send", ("ifexp_test", "transports", 0), [P("transport", "transport_given", "bool")], "bool", {}),
     ("ReplyNet", "src_transports", CORE, "Zeroconf.async_send", ("assign", "transports", 0), [], "src", {}),
     ("ReplyNet", "send_oversize", CORE, "Zeroconf.async_send", ("if", "_MAX_MSG_ABSOLUTE", 0), [P("len(packet)", "packet_len")], "bool", {"nat": True}),
     ("ReplyNet", "src_packet_loop", CORE, "Zeroconf.async_send", ("for_iter", 0), [], "src", {}),
@@ -70,6 +70,13 @@ LEAVES = [
     ("ReplyNet", "src_l_respond_now", LIS, "AsyncListener.handle_query_or_defer", ("call", "_respond_query", 0), [], "src", {}),
     ("ReplyNet", "src_l_respond_later", LIS, "AsyncListener.handle_query_or_defer", ("call", "call_at", 0), [], "src", {}),
     ("ReplyNet", "src_l_assembled", LIS, "AsyncListener._respond_query", ("call", "handle_assembled_query", 0), [], "src", {}),
+    # ---- _listener.py::_respond_query: the deferred packets first, the packet just received last (the reply takes id and
+    #      questions from `packets[0]`); _cache.py::async_get_unique: "seen" is looked up under the lower-cased name
+    ("ReplyNet", "src_l_packets", LIS, "AsyncListener._respond_query", ("assign", "packets", 0), [], "src", {}),
+    ("ReplyNet", "src_l_packets_append", LIS, "AsyncListener._respond_query", ("call", "packets.append", 0), [], "src", {}),
+    ("ReplyNet", "l_append_if_msg", LIS, "AsyncListener._respond_query", ("if", "msg", 0), [P("msg", "msg_given", "bool")], "bool", {}),
+    ("ReplyNet", "src_cache_unique_store", "_cache.py", "DNSCache.async_get_unique", ("assign", "store", 0), [], "src", {}),
+    ("ReplyNet", "src_cache_unique_ret", "_cache.py", "DNSCache.async_get_unique", ("last_ret",), [], "src", {}),
     # ---- the record constructors the responder answers with: type and class arguments
     ("ReplyNet", "rec_ptr_type", INFO, "ServiceInfo._dns_pointer", ("arg", "DNSPointer", 1, 0), [], "num", {"nat": True}),
     ("ReplyNet", "rec_ptr_class", INFO, "ServiceInfo._dns_pointer", ("arg", "DNSPointer", 2, 0), [], "num", {"nat": True}),
